@@ -5,6 +5,7 @@ CONSTANTS
   Files = {"s1", "s2"}
   FBody <- FB
   SBody <- SB
+  ForPats <- FP
   Legacy <- NoLegacy
 INVARIANT Agree
 INVARIANT Emit
